@@ -29,18 +29,42 @@ LOSES_OWN = {'TableBox', 'InlineTableBox', 'TableRowGroupBox', 'TableRowBox', 'T
 NOT_TRANSFORMABLE = {'InlineBox'}
 
 
+# Known finding `collapse-paints-background`: layout_box_backgrounds tests `visibility == 'hidden'`, so a
+# `visibility: collapse` box keeps its background.  LENIENT[0] = True evaluates the style the way the code does
+# (used only to recognise a disagreement as that finding).
+LENIENT = [False]
+
+
 def spec_bg(value, is_page=False):
-    """Style-level background (S visible colour images) -> what CSS paints for the box itself: a colour code,
-    'transparent' (a background without visible colour: images only, or the page box) or 'none'.
-    `visibility: hidden` paints nothing (CSS 2.1 11.2)."""
+    """Style-level background (S visibility colour images) -> what CSS paints for the box itself: a colour
+    code, 'transparent' (a background without visible colour: images only, or the page box) or 'none'.
+    Only `visibility: visible` paints (CSS 2.1 11.2: hidden is invisible; collapse means hidden on everything
+    but table rows / columns, which it removes)."""
     if not (isinstance(value, list) and value and value[0] == 'S'):
         return value
-    _, visible, colour, images = value
+    _, visibility, colour, images = value
+    visible = visibility in (True, 'visible') or (LENIENT[0] and visibility == 'collapse')
     if visible and isinstance(colour, int):
         return colour
     if is_page or (visible and images):
         return 'transparent'
     return 'none'
+
+
+def has_collapse_background(page_attrs, kids_wire):
+    """Is there a `visibility: collapse` box with a background colour or image (style-level export)?"""
+    def own(attrs):
+        values = [attrs[SLOTS.index('bg')]] + [g[1] for g in attrs[SLOTS.index('colGroups')]] + [
+            c[1] for g in attrs[SLOTS.index('colGroups')] for c in g[2]]
+        return any(isinstance(v, list) and v and v[0] == 'S' and v[1] == 'collapse' and
+                   (isinstance(v[2], int) or v[3]) for v in values)
+
+    def walk(wire):
+        while wire[0] == 'P':
+            wire = wire[1]
+        return own(wire[1]) or (wire[0] == 'N' and any(walk(k) for k in wire[2]))
+
+    return own(page_attrs) or any(walk(k) for k in kids_wire)
 
 
 def spec_matrix(value, kind):
@@ -217,6 +241,8 @@ def expected_items(page_attrs, kids_wire, canvas, exempt=True, info=None):
 
     def mark_subtree_exempt(node):
         a = node.a
+        if node.kind in REPLACED:
+            exempt_codes.add('r')       # replaced content carries no colour code: exempt by kind
         for slot in ('bg', 'border', 'outline'):
             if isinstance(a[slot], int):
                 exempt_codes.add(a[slot])
@@ -431,6 +457,22 @@ def code_of(event):
 
 def violation(page_attrs, kids_wire, canvas, impl, exempt=True, info=None):
     """-> (text | None, findings seen).  `impl` is the implementation's display list string."""
+    what, findings = violation_once(page_attrs, kids_wire, canvas, impl, exempt, info)
+    if what and has_collapse_background(page_attrs, kids_wire):
+        LENIENT[0] = True
+        try:
+            lenient, more = violation_once(page_attrs, kids_wire, canvas, impl, exempt, info)
+        finally:
+            LENIENT[0] = False
+        if lenient is None:
+            # fully explained by the backgrounds of `visibility: collapse` boxes
+            findings = findings | more | {'collapse-paints-background'}
+            if exempt:
+                return None, findings
+    return what, findings
+
+
+def violation_once(page_attrs, kids_wire, canvas, impl, exempt=True, info=None):
     if impl.startswith('err:'):
         return f'painting raised {impl}', set()
     expected, exempt_codes, findings = expected_items(page_attrs, kids_wire, canvas, exempt, info)
@@ -438,8 +480,11 @@ def violation(page_attrs, kids_wire, canvas, impl, exempt=True, info=None):
     if got == expected:
         return None, findings
     if exempt and exempt_codes:
-        got = [e for e in got if code_of(e) not in exempt_codes]
-        expected = [e for e in expected if code_of(e) not in exempt_codes]
+        def kept(e):
+            return not (e.startswith('r:') and 'r' in exempt_codes) and (
+                e.startswith('r:') or code_of(e) not in exempt_codes)
+        got = [e for e in got if kept(e)]
+        expected = [e for e in expected if kept(e)]
         if got == expected:
             return None, findings
     # describe the first difference in the property's terms
@@ -637,15 +682,38 @@ def close(a, b):
     return snap(a, b)[0] == b
 
 
-def geometry_violation(page_box, events):
+def parse_rect(text):
+    """`re(x,y,w,h)` -> four Fractions, else None."""
+    if not (text.startswith('re(') and text.endswith(')') and text.count('(') == 1):
+        return None
+    try:
+        values = [Fraction(v) for v in text[3:-1].split(',')]
+    except ValueError:
+        return None
+    return values if len(values) == 4 else None
+
+
+def geometry_violation(page_box, events, exempt=True, findings=None):
     """`events` = geometric display list (list of tokens) of the page; boxes must be tagged (`_vid`).
-    Only ordinary boxes (no table parts), four-sided borders, no outlines: what the geometry scenes contain.
-    Every painted fill / text show must be at the rectangle, rounded box or origin CSS prescribes for one of
-    the boxes of its colour, inside that box's background-clip box and its overflow ancestors' padding boxes."""
+    Ordinary boxes, four-sided borders, no outlines, tables of the separated borders model: what the geometry
+    scenes contain.  Every painted fill / text show must be at the rectangle, rounded box or origin CSS
+    prescribes for one of the boxes of its colour, inside that box's background-clip box and its overflow
+    ancestors' padding boxes.  The background of a row, row group, column or column group (CSS 2.1 17.5.1) is
+    painted through exactly the border boxes of the cells that originate in it, and its painting area covers
+    every one of them.  `findings` (a set) receives the known findings met."""
     from harness.c17_scene import TABLE_PART_NAMES, bg_of, color_code, show_dec
     from weasyprint.draw.color import get_color
     from weasyprint.formatting_structure import boxes
-    want_bg, want_border, want_text = {}, {}, {}
+    want_bg, want_border, want_text, want_part = {}, {}, {}, {}
+    if findings is None:
+        findings = set()
+
+    def part_cells(box, name):
+        if name == 'TableRowBox':
+            return [list(box.children)]
+        if name == 'TableRowGroupBox':
+            return [list(row.children) for row in box.children if row.children]
+        return [list(box.get_cells())]
 
     def walk(box, clip_ancestors):
         box = getattr(box, '_box', box)
@@ -670,6 +738,17 @@ def geometry_violation(page_box, events):
                     f'tm({show_dec(Fraction(box.position_x))},'
                     f'{show_dec(Fraction(box.position_y) + Fraction(box.baseline))},'
                     f'{show_dec(Fraction(box.style["font_size"]))})'), list(clip_ancestors)))
+        if name in TABLE_PART_NAMES:
+            code = bg_of(box)
+            if isinstance(code, int):
+                rows = part_cells(box, name)
+                cells = [cell for row in rows for cell in row]
+                areas = [spec_rounded(cell, (0, 0, 0, 0)) for cell in cells]
+                want_part.setdefault(str(code), []).append(
+                    (box._vid, name, [spec_path(a) for a in areas], [a[:4] for a in areas], len(rows)))
+        if isinstance(box, boxes.TableBox):
+            for group in box.column_groups:
+                walk(group, clip_ancestors)
         inner = list(clip_ancestors)
         if (box.style['overflow'] != 'visible' and not isinstance(box, boxes.PageBox)
                 and name not in TABLE_PART_NAMES):
@@ -724,6 +803,36 @@ def geometry_violation(page_box, events):
                 return (f'border of colour {color} is painted as {geom}; box {vid} (widths {widths}): inner edge = '
                         f'padding box with radii max(0, r - width), outer edge = border box: {path}')
             continue
+        if color in want_part and not want_bg.get(color):
+            problem = None
+            for vid, name, paths, rects, nrows in want_part[color]:
+                got_paths = clips[-2].split('+') if len(clips) >= 2 and clips[-2] else []
+                if len(got_paths) != len(paths) or not all(close(g, w) for g, w in zip(got_paths, paths)):
+                    problem = (f'background of the {name} {vid} (colour {color}) is painted through the clip '
+                               f'{got_paths}; the border boxes of the cells that originate in it are {paths}')
+                    continue
+                area = parse_rect(geom)
+                tol = Fraction(1, 10000)
+                outside = [r for r in rects if area is None or not (
+                    area[0] - tol <= r[0] and r[0] + r[2] <= area[0] + area[2] + tol and
+                    area[1] - tol <= r[1] and r[1] + r[3] <= area[1] + area[3] + tol)]
+                if not outside:
+                    problem = None
+                    break
+                cell = outside[0]
+                text = (f'background of the {name} {vid} (colour {color}) is painted in {geom}: the cell border box '
+                        f're({show_dec(cell[0])},{show_dec(cell[1])},{show_dec(cell[2])},{show_dec(cell[3])}) that '
+                        'originates in it is not covered (CSS 2.1 17.5.1)')
+                if name == 'TableRowGroupBox' and nrows > 1:
+                    # known finding: the height of a row group's painting area is its highest cell's
+                    findings.add('row-group-background-first-row-only')
+                    if exempt:
+                        problem = None
+                        break
+                problem = text
+            if problem:
+                return problem
+            continue
         cands = want_bg.get(color, [])
         if not cands:
             continue
@@ -756,7 +865,25 @@ POINT2 = {'BlockBox', 'InlineBlockBox', 'ReplacedBox', 'BlockReplacedBox', 'Inli
           'GridContainerBox', 'GridBox', 'InlineGridBox'}
 
 
-def laid_out_violation(page_attrs, kids_wire, info, impl):
+def laid_out_violation(page_attrs, kids_wire, info, impl, exempt=True):
+    """-> (text | None, findings seen); see laid_out_once.  A disagreement that disappears when `visibility:
+    collapse` is read the way layout_box_backgrounds reads it is the known finding collapse-paints-background."""
+    what = laid_out_once(page_attrs, kids_wire, info, impl)
+    findings = set()
+    if what and has_collapse_background(page_attrs, kids_wire):
+        LENIENT[0] = True
+        try:
+            lenient = laid_out_once(page_attrs, kids_wire, info, impl)
+        finally:
+            LENIENT[0] = False
+        if lenient is None:
+            findings.add('collapse-paints-background')
+            if exempt:
+                what = None
+    return what, findings
+
+
+def laid_out_once(page_attrs, kids_wire, info, impl):
     """`impl` = `canvas (id bg matrix) …` read from the real boxes after layout (style-level export).
     Clauses: every box has the background its style prescribes — except the element whose background was
     propagated to the canvas, which has none (CSS 2.1 14.2) — and every transformable box with a `transform`
